@@ -180,6 +180,8 @@ class DBMDict(PersistentBytesDict):
         self.__shelf = data_persistence.bytes_shelf.open(file_path, writeback=True)
 
     def sync(self) -> None:
+        if self.__closed:
+            raise ValueError('invalid operation on closed dict')
         self.__shelf.sync()
 
     def close(self) -> None:
